@@ -163,6 +163,30 @@ func enlargeNumbers(t *rapid.T, s GenomeSpec) GenomeSpec {
 	return s
 }
 
+// enlargeFamilyInnovations shifts every innovation number above a generated pivot by one large offset in all members of a
+// family (order and agreement between the members preserved): the numbers of a very long run, up to 2^63-2.
+func enlargeFamilyInnovations(t *rapid.T, fam []GenomeSpec) []GenomeSpec {
+	var maxInn int64
+	for _, s := range fam {
+		if _, m := maxIds(s); m > maxInn {
+			maxInn = m
+		}
+	}
+	off := rapid.SampledFrom([]int64{1 << 31, 1 << 40, math.MaxInt64/2 - maxInn, math.MaxInt64 - maxInn - 1}).Draw(t, "family innovation offset")
+	pivot := int64(rapid.IntRange(0, int(maxInn)).Draw(t, "family innovation pivot"))
+	out := make([]GenomeSpec, len(fam))
+	for i, s := range fam {
+		s.Genes = append([]GeneSpec(nil), s.Genes...)
+		for k := range s.Genes {
+			if s.Genes[k].Innov > pivot {
+				s.Genes[k].Innov += off
+			}
+		}
+		out[i] = s
+	}
+	return out
+}
+
 func genGenomeSpec(cfg GenomeCfg) *rapid.Generator[GenomeSpec] {
 	return rapid.Custom(func(t *rapid.T) GenomeSpec {
 		s := drawGenomeSpec(t, cfg)
